@@ -3,13 +3,14 @@ import os, subprocess, json, re, shutil, tempfile, time, hashlib
 from concurrent.futures import ThreadPoolExecutor
 
 VERIF = os.path.dirname(os.path.dirname(os.path.abspath(__file__)))
+BUILD = os.environ.get("VERIF_BUILD") or os.path.join(VERIF, "build")
 SPEC = os.path.join(VERIF, "spec")
 JAR = "/opt/veriftools/tla/tla2tools.jar:/opt/veriftools/tla/CommunityModules-deps.jar"
-STATES = os.path.join(VERIF, "build", "tlc")
+STATES = os.path.join(BUILD, "tlc")
 
 def _specdir():
     """one flat directory with every module (TLC resolves EXTENDS in the spec's directory)"""
-    d = os.path.join(VERIF, "build", "specflat")
+    d = os.path.join(BUILD, "specflat")
     os.makedirs(d, exist_ok=True)
     for root, _, files in os.walk(SPEC):
         for f in files:
